@@ -318,10 +318,22 @@ impl<'m> VariantMetadata<'m> {
                 // Since shallow validation ensures the first and last offsets are in bounds,
                 // we can also verify all offsets are in-bounds by checking if
                 // offsets are monotonically increasing
-                if !offsets.is_sorted_by(|a, b| a < b) {
-                    return Err(ArrowError::InvalidArgumentError(
-                        "offsets not monotonically increasing".to_string(),
-                    ));
+                //
+                // Every offset must also fall on a character boundary of the (valid UTF-8) value
+                // buffer, otherwise an entry would start or end inside a multi-byte character
+                let mut prev_offset = None;
+                for offset in offsets {
+                    if prev_offset.is_some_and(|prev| prev >= offset) {
+                        return Err(ArrowError::InvalidArgumentError(
+                            "offsets not monotonically increasing".to_string(),
+                        ));
+                    }
+                    if !value_buffer.is_char_boundary(offset) {
+                        return Err(ArrowError::InvalidArgumentError(format!(
+                            "offset {offset} is not on a UTF-8 character boundary"
+                        )));
+                    }
+                    prev_offset = Some(offset);
                 }
             }
 
